@@ -1,6 +1,7 @@
 import JT.Proof.GoModel
 import JT.Proof.GoModelRT
 import JT.Proof.GoModelBcd
+import JT.Proof.GoReply
 /-!
 # C07 — encoders as they stand in the source
 
@@ -104,5 +105,13 @@ theorem source_1211_roundtrip (fuel : Nat) (j : Gen.GoFrame.jt808_JTMessage) (t 
     ∃ body, Gen.GoModel.model_T0x1211_Encode fuel t = .ok body ∧
       ∃ r, Gen.GoModel.model_T0x1211_Parse fuel q { j with Body := body } = .ok (r, none) ∧ r.FileNameLen = t.FileNameLen ∧ r.FileName = t.FileName ∧ r.FileType = t.FileType ∧ r.FileSize = t.FileSize :=
   Gen.GoModel.T0x1211_roundtrip fuel t q j hl
+
+/-- registration response 0x8100 (serial, result, authentication code to the end of the body): `Parse(Encode(v)) = v` on the
+translated code, for every code -/
+theorem source_8100_roundtrip (fuel : Nat) (j : Gen.GoFrame.jt808_JTMessage) (t q : Gen.GoModel.model_P0x8100) :
+    ∃ body, Gen.GoModel.model_P0x8100_Encode fuel t = .ok body ∧
+      ∃ r, Gen.GoModel.model_P0x8100_Parse fuel q { j with Body := body } = .ok (r, none) ∧
+        r.RespondSerialNumber = t.RespondSerialNumber ∧ r.Result = t.Result ∧ r.AuthCode = t.AuthCode :=
+  Gen.GoModel.P0x8100_roundtrip fuel t q j
 
 end JT.C07
